@@ -13,6 +13,21 @@ DEV_NOTE = ("Trusted: TLC, the transcription of the device rules into Devices.tl
             "built per behaviour and every terminal is read after every action); timestamps are ranks mapped monotonically to i64; "
             "numeric agreement within 2^-16 of the largest magnitude in the behaviour.")
 CLAIMS = {
+ "C06": dict(design_ref="DESIGN.md section 4, C06",
+    text="ProfilePhases.tla defines what the six accessors must agree on as a function of the comparisons of t with 0, t1, t2, t3 and of the "
+         "end command's kind; TLC checks monotone pieces and the mode laws over all comparison patterns. Bound to the code both ways: every move "
+         "of MotionProfile.tla's exact family is built and queried (half ticks, boundaries +-1 ns, i64 extremes; infeasible requests must be "
+         "refused), and traces recorded from random constructor arguments are validated event by event by TLC against ProfileTrace.tla.",
+    note="Trusted: TLC, the specifications, the harness; in the trace direction the boundaries are recovered by bisection on get_piece.",
+    technique="TLA+ spec model-checked with TLC; spec cases replayed into the implementation and implementation traces validated by TLC"),
+ "C07": dict(design_ref="DESIGN.md section 4, C07",
+    text="MotionProfile.tla contains an independent reference trapezoid in exact rationals written phase by phase; TLC checks on it the sign "
+         "pattern of the acceleration, continuity, start / end values, the speed limit, position = integral of velocity, negation symmetry and "
+         "acceptance of long moves; every move (1332 quick) is built on the real MotionProfile under 5 tick / scale concretisations and compared "
+         "at every half tick, and the negated request must give exactly negated outputs. Zero-displacement moves violate the negation clause "
+         "(known finding).",
+    note="Trusted: TLC, MotionProfile.tla, the harness. Exact dyadic domain only; the f32 rounding-tolerance clause on arbitrary arguments is not decided.",
+    technique=TECH),
  "C01": dict(design_ref="DESIGN.md section 4, C01",
     text="Units.tla transcribes the three implementation tables (which operator forms exist between Quantity, bare Unit, Time and "
          "DimensionlessInteger, their result unit, when they panic), the grammar of the 49 named constants and the PositionDerivative / "
